@@ -7,7 +7,7 @@ open Bib Sx
 def hParse0 : Handler := fun P args =>
   match args with
   | [.str s] =>
-    encExcept (fun (L : Lib) => .list (L.blocks.map encBlock)) (do libraryOf (← split P s))
+    encExcept (fun (L : KLib) => .list (L.blocks.map encBlock)) (do libraryOfE (← split P s))
   | _ => badArgs
 
 /-- `(libof (block ...))`: `Library(blocks).blocks` -/
@@ -15,7 +15,7 @@ def hLibOf : Handler := fun _ args =>
   match args with
   | [bs] =>
     match decBlocks bs with
-    | some l => encExcept (fun (L : Lib) => .list (L.blocks.map encBlock)) (libraryOf l)
+    | some l => encExcept (fun (L : KLib) => .list (L.blocks.map encBlock)) (libraryOfE l)
     | none => badArgs
   | _ => badArgs
 
